@@ -597,7 +597,10 @@ def eqz(v):
     segs = norm(tuple(s for s in v if s[0]))
     if width(segs) == 1:
         return bxor(segs, const(1, 1))
-    return full(node('eqz', 1, segs))
+    nid_ = node('eqz', 1, segs)
+    if ALIAS_NODE and nid_ in ALIAS_NODE:
+        return ALIAS_NODE[nid_]
+    return full(nid_)
 
 
 def eq(a, b):
@@ -643,7 +646,10 @@ def ult(a, b):
             # 2^k - 1 < b  <=>  some bit of b from k upwards is set
             k = c.bit_length() - 1
             return bxor(eqz(extract(b, k, w - k)), const(1, 1))
-    return full(node('ult', 1, (a, b)))
+    nid_ = node('ult', 1, (a, b))
+    if ALIAS_NODE and nid_ in ALIAS_NODE:
+        return ALIAS_NODE[nid_]
+    return full(nid_)
 
 
 def ule(a, b):
